@@ -15,7 +15,7 @@ from .rules import pairs as PR
 from .rules import codes as CD
 from .rules import members as MB
 from .rules.arity import rule_arity
-from .rules.wiring import rule_finalizerun, rule_kwpass, rule_slotfill, rule_passthrough_sort, rule_passthrough_engine, rule_counter, rule_globalidx, rule_sorted, rule_infresolve, rule_uniquefrom, rule_emptyidx, rule_fillnone, rule_aligned, rule_autorefuse, rule_autoparam, rule_blockbcast, rule_emptycohorts, rule_axisorder, rule_normform, rule_absentmask, rule_passthrough_options, rule_predfamily, rule_scanmissing, rule_partialunknown, rule_zeroblock, rule_blocklabels, rule_axisrange, rule_qrange, rule_dtypenorm
+from .rules.wiring import rule_semneutral, rule_finalizerun, rule_kwpass, rule_slotfill, rule_passthrough_sort, rule_passthrough_engine, rule_counter, rule_globalidx, rule_sorted, rule_infresolve, rule_uniquefrom, rule_emptyidx, rule_fillnone, rule_aligned, rule_autorefuse, rule_autoparam, rule_blockbcast, rule_emptycohorts, rule_axisorder, rule_normform, rule_absentmask, rule_passthrough_options, rule_predfamily, rule_scanmissing, rule_partialunknown, rule_zeroblock, rule_blocklabels, rule_axisrange, rule_qrange, rule_dtypenorm
 
 PROPERTIES = {
     "C01": {
@@ -29,7 +29,7 @@ PROPERTIES = {
         "explanation": "R-DISPATCH over (kernel, engine) resolutions and engine-module bindings; R-STABLE over argsort sites; R-PASSTHROUGH[engine]: every stage runs with the engine the user chose; R-VARSHIFT; R-PAIRS[perm]; R-LAYOUT: no flattening in memory order; R-MISSINGCODE: every code producer sends NaN/NaT labels to -1; R-UNPERMUTE: results are put back in order with the inverse permutation",
     },
     "C05": {
-        "rules": [rule_truthy, rule_fillflow, rule_parallel, rule_counter, CD.rule_identitycodes, CD.rule_labelvalue, CD.rule_missingcode, M.rule_fillwiden, CD.rule_indexer, M.rule_fillcast, CD.rule_indexdir, rule_absentmask, rule_passthrough_options, M.rule_reindexskip],
+        "rules": [rule_truthy, rule_fillflow, rule_parallel, rule_counter, CD.rule_identitycodes, CD.rule_labelvalue, CD.rule_missingcode, M.rule_fillwiden, CD.rule_indexer, M.rule_fillcast, CD.rule_indexdir, rule_absentmask, rule_passthrough_options, M.rule_reindexskip, rule_semneutral],
         "thorough": [selftest, seeded_regression],
         "technique": "def-use fill-family + boolean-context scan; counter-wiring table check (custom AST checker)",
         "level_text": "Static, all-paths: no fill-value-typed expression (nor the optional min_count) is ever coerced to bool, so falsy "
@@ -39,7 +39,7 @@ PROPERTIES = {
         "explanation": "R-TRUTHY over every boolean context of every function; R-FILLFLOW over the fill sinks; R-PARALLEL over the min_count branch; R-IDENTITYCODES: labels are their own codes only for integer labels and the index 0..n-1, both ends masked",
     },
     "C12": {
-        "rules": [rule_lazy, M.rule_combinebypass, CD.rule_placeholder, rule_partialunknown],
+        "rules": [rule_lazy, M.rule_combinebypass, CD.rule_placeholder, rule_partialunknown, rule_semneutral],
         "thorough": [selftest, seeded_regression],
         "technique": "predicate abstraction over dask-ness atoms on the CFG (bitset valuations, no solver) with function summaries",
         "level_text": "Static, all-paths: on every path of the API entry points (and of every function they call while building a "
